@@ -80,12 +80,62 @@ class Tools:
                 self.tie_error = self.tie_error or str(e)
         self.oracle = vf.oracle_build('rectclip')
 
-    def impl(self, lines, asan=False, timeout=600):
-        return C09.run_robust(self.asan if asan else self.exe, lines, timeout=timeout,
-                              env={'ASAN_OPTIONS': 'detect_leaks=1:abort_on_error=0', 'UBSAN_OPTIONS': 'print_stacktrace=1'} if asan else None)
+    def impl(self, lines, asan=False, timeout=300):
+        return run_capped(self.asan if asan else self.exe, lines, timeout=timeout,
+                          env={'ASAN_OPTIONS': 'detect_leaks=1:abort_on_error=0', 'UBSAN_OPTIONS': 'print_stacktrace=1'} if asan else None)
 
     def model(self, lines, timeout=900):
         return C09.run_robust(self.oracle, lines, timeout=timeout)
+
+
+def run_capped(binary, lines, timeout=300, env=None, max_bad=6):
+    """C09.run_robust with a cap: the harness ends itself (status 124, output flushed) when one command runs longer than a few
+    seconds, so the input line a shard died on is the first one without output; it is marked 'CRASH ...' and the shard is resumed
+    behind it.  A line the harness died on without flushing (a real crash) is confirmed by running it alone.  After max_bad dead
+    lines in one shard the rest of that shard is marked 'SKIP' (a tree that hangs on thousands of inputs must not stall the check)."""
+    import concurrent.futures as cf
+    n = len(lines)
+    if n == 0:
+        return []
+
+    def work(shard):
+        out, pos, bad = [], 0, 0
+        while pos < len(shard):
+            p = vf.run_lines(binary, shard[pos:], timeout=timeout, env=env)
+            o = p.stdout.split('\n')
+            if o and o[-1] == '':
+                o = o[:-1]
+            rest = len(shard) - pos
+            if p.returncode == 0 and len(o) == rest:
+                out += o
+                break
+            good = min(len(o), rest - 1)
+            if p.returncode == 0:
+                raise vf.Infra('lost outputs from %s' % binary)
+            if p.returncode != 124 and not getattr(p, 'timed_out', False):
+                # died without flushing: everything printed is valid, the culprit is somewhere behind; probe the next line alone
+                q = vf.run_lines(binary, [shard[pos + good]], timeout=60, env=env)
+                qo = q.stdout.split('\n')
+                if q.returncode == 0 and len(qo) >= 1 and qo[0] != '':
+                    out += o[:good] + [qo[0]]
+                    pos += good + 1
+                    continue
+                p = q
+            out += o[:good]
+            out.append('CRASH rc=%s %s' % (p.returncode, ' '.join((p.stderr or '')[-600:].split())))
+            pos += good + 1
+            bad += 1
+            if bad >= max_bad:
+                out += ['SKIP'] * (len(shard) - pos)
+                break
+        return out
+    chunk = max(1, (n + vf.NPROC - 1) // vf.NPROC)
+    shards = [lines[i:i + chunk] for i in range(0, n, chunk)]
+    with cf.ThreadPoolExecutor(max_workers=vf.NPROC) as ex:
+        res = [x for o in ex.map(work, shards) for x in o]
+    if len(res) != n:
+        raise vf.Infra('lost outputs from %s' % binary)
+    return res
 
 
 # ----------------------------------------------------------------------------- generators (closed paths)
@@ -390,7 +440,9 @@ def evaluate(tools, cases, rng, npts, lattice=False, with_model=True):
     res = []
     for i, c in enumerate(cases):
         d = dict(impl=a[i], model=b[i], out=outs[i], v=None, fail=[], mismatch=(b[i] is not None and a[i] != b[i]), pts=ptsl.get(i))
-        if outs[i] is None:
+        if a[i] == 'SKIP':
+            d['mismatch'] = False        # not evaluated (too many dead commands in this shard)
+        elif outs[i] is None:
             d['fail'] = ['clip.crash' if a[i].startswith('CRASH') else 'clip.exception']
         else:
             d['v'] = parse_verdict(vm[i])
